@@ -388,13 +388,7 @@ func (p *printer) caseClause(x *ast.CaseClause) {
 		for _, c := range x.Items {
 			p.newline()
 			p.indent()
-			for i, w := range c.Patterns {
-				if i > 0 {
-					p.w.WriteByte('|')
-				}
-				p.word(w)
-			}
-			p.w.WriteByte(')')
+			p.patterns(c)
 			p.compoundList(c.List)
 			p.lv++
 			p.newline()
@@ -410,13 +404,7 @@ func (p *printer) caseClause(x *ast.CaseClause) {
 	} else {
 		for _, c := range x.Items {
 			p.space()
-			for i, w := range c.Patterns {
-				if i > 0 {
-					p.w.WriteByte('|')
-				}
-				p.word(w)
-			}
-			p.w.WriteByte(')')
+			p.patterns(c)
 			if len(c.List) != 0 {
 				if undo := p.trim(c.List[0]); undo != nil {
 					defer undo()
@@ -429,6 +417,23 @@ func (p *printer) caseClause(x *ast.CaseClause) {
 		p.space()
 	}
 	p.w.WriteString("esac")
+}
+
+// patterns writes the patterns of a case item up to the ")".
+func (p *printer) patterns(c *ast.CaseItem) {
+	if len(c.Patterns) != 0 && len(c.Patterns[0]) == 1 {
+		if w, ok := c.Patterns[0][0].(*ast.Lit); ok && w.Value == "esac" {
+			// a first pattern that spells esac needs the "("
+			p.w.WriteByte('(')
+		}
+	}
+	for i, w := range c.Patterns {
+		if i > 0 {
+			p.w.WriteByte('|')
+		}
+		p.word(w)
+	}
+	p.w.WriteByte(')')
 }
 
 func (p *printer) ifClause(x *ast.IfClause) {
